@@ -20,7 +20,7 @@ NT_RULE = ('id collections of 0-60 ids from 1-3 prefixes (plain, containing the 
 REQUIRED_ORACLES = ['I1', 'I2', 'I3', 'I4']
 REQUIRED_CLASSES = ['ids:empty', 'ids:multi_prefix', 'ids:gap', 'ids:duplicate', 'ids:prefix_has_delim',
                     'ids:empty_prefix', 'ids:leading_delim', 'ids:pad_other', 'ids:as_id_attr', 'ids:as_name_attr',
-                    'ids:bad_suffix', 'ids:non_str', 'wrap:single_line', 'wrap:multi_line', 'wrap:long_token',
+                    'ids:bad_suffix', 'ids:non_str', 'ids:numbering_shared_pool', 'ids:numbering_suffix_in_prefix', 'wrap:single_line', 'wrap:multi_line', 'wrap:long_token',
                     'wrap:dict', 'wrap:list', 'wrap:str', 'wrap:tuple']
 REQUIRED_PROBES = ['_get_omkm_range', 'obj_to_cti']
 ASSUMPTIONS = ['range notation "<p><a> to <p><b>" denotes every id <p><k>, a<=k<=b, written with the width of '
@@ -52,6 +52,8 @@ def directed(tier):
     D.append({'kind': 'ids', 'ids': ['_0001', '_0002'], 'delim': '_', 'as': 'name'})              # leading delimiter
     D.append({'kind': 'ids', 'ids': ['a_b_0001', 'a_b_0002', 'a_0001', 'r_0001', 'r_0001'], 'delim': '_', 'as': 'str'})
     D.append({'kind': 'ids', 'ids': ['r_12345', 'r_12346', 'r_99999', 'r_0000'], 'delim': '_', 'as': 'str'})
+    D.append({'kind': 'ids', 'ids': ['gas_0001', 'gas_0002', 'gas_0003', 'surf_0004', 'surf_0005', 'surf_0006'], 'delim': '_', 'as': 'str'})
+    D.append({'kind': 'ids', 'ids': ['ch4_4', 'ch4_5', 'bep_12_12', 'bep_12_13', 's_2_2'], 'delim': '_', 'as': 'str'})
     D.append({'kind': 'bad', 'ids': ['r_0001', 'r_abc'], 'delim': '_', 'as': 'str', 'why': 'bad_suffix'})
     D.append({'kind': 'bad', 'ids': ['r_0001', 5], 'delim': '_', 'as': 'str', 'why': 'non_str'})
     D.append({'kind': 'bad', 'ids': [7], 'delim': '_', 'as': 'id', 'why': 'non_str'})
@@ -95,8 +97,19 @@ def generate(rng, tier):
         pad = rng.choice(['4', '4', '4', '4', 'other'])
         n = rng.choice([0, 1, 2, 3, 5, 10, 20, 40, 60])
         ids = []
+        numbering = rng.choice(['per_prefix', 'per_prefix', 'shared_pool', 'suffix_in_prefix'])
+        if numbering == 'suffix_in_prefix':
+            # prefixes that contain digits, sometimes exactly the digits of the suffix (ch4_4, bep_12_12)
+            k_ = rng.choice([2, 4, 7, 12, 30])
+            prefixes = [q_ for q_ in ('ch%d%s' % (k_, delim), 'bep%s%d%s' % (delim, k_, delim), 's%s%d%s' % (delim, k_, delim))][:rng.randint(1, 3)]
+            pad = 'natural'
+        pool = rng.choice([0, 1, rng.randint(0, 99000)])
         for p in prefixes:
             start = rng.choice([0, 1, rng.randint(0, 99990)])
+            if numbering == 'shared_pool':
+                start = pool                 # one running counter over all prefixes (r_0001.., then s_0004..)
+            if numbering == 'suffix_in_prefix':
+                start = max(0, k_ - rng.randint(0, 2))
             cur = start
             for _ in range(max(0, n // len(prefixes)) + (1 if n else 0)):
                 cur += rng.choice([1, 1, 1, 1, 2, 3, 17]) if ids else 0
@@ -104,16 +117,24 @@ def generate(rng, tier):
                     break
                 if pad == '4':
                     ids.append('%s%04d' % (p, cur))
+                elif pad == 'natural':
+                    ids.append('%s%d' % (p, cur))
                 else:
                     w = rng.choice([1, 2, 3, 5, 6])
                     ids.append('%s%0*d' % (p, w, cur))
+            pool = cur + 1
         ids = ids[:60]
         for _ in range(rng.choice([0, 0, 1, 3])):
             if ids:
                 ids.append(rng.choice(ids))
         ids = ids[:60]
-        rng.shuffle(ids)
-        return {'kind': 'ids', 'ids': ids, 'delim': delim, 'as': rng.choice(['str', 'str', 'id', 'name'])}
+        if rng.random() < 0.6:
+            rng.shuffle(ids)
+        shuffle_ = rng.random() < 0.6
+        if not shuffle_:
+            ids = sorted(ids, key=lambda x_: 0)      # keep generation order (groups adjacent, ascending)
+        return {'kind': 'ids', 'ids': ids, 'delim': delim, 'as': rng.choice(['str', 'str', 'id', 'name']),
+                'numbering': numbering}
     if r < 0.62:
         why = rng.choice(['bad_suffix', 'non_str'])
         ids = ['r_%04d' % i for i in range(1, rng.randint(2, 6))]
@@ -237,6 +258,8 @@ def _ids(spec, ctx):
     from pmutt.cantera import _get_omkm_range
     feats = classify_ids(spec, ctx)
     ctx.cls('ids:as_%s_attr' % spec['as'] if spec['as'] != 'str' else 'ids:as_str')
+    if spec.get('numbering'):
+        ctx.cls('ids:numbering_' + spec['numbering'])
     mech = {'pad': feats.get('pad', '4'), 'prefix': feats.get('prefix', 'plain')}
     want = set(spec['ids'])
     out = ctx.call('I1', dict(mech, form='str'), _get_omkm_range, objs=_wrap_objs(spec), delimiter=spec['delim'])
